@@ -453,6 +453,8 @@ func tokenAlphabet() []string {
 		"<-", "<-!", "->", "<->", "<", "<=", "<<", ">", ">=", "=", "==", "!", "!=", "&", "&&", "^", "|", "||", "@", "as!", "as?", "#",
 		// literals / identifiers / comments / strings
 		"0", "1", "0x1", "0b1", "0o7", "0z1", "1.0", "1.", "a", "_", "T", "\"s\"", "\"\\(a)\"", "\"", "\"\\(", "/*c*/", "/*", "*/", "//c\n", "\n", "\\",
+		// multi-line block comments: content ending in a newline, doc comment, nested
+		"/* a\n*/", "/**d\n*/", "/* a /* b\n*/ c\n*/",
 		"/storage/a",
 	}
 	// keywords
@@ -461,6 +463,14 @@ func tokenAlphabet() []string {
 }
 
 var editInserts = [][]byte{{0x80}, {0xC0}, {0xFF}, {0xED, 0xA0, 0x80}, {0x00}, []byte("\\("), []byte("/*"), []byte("\"")}
+
+// commentInserts are inserted at every token gap of every edit-corpus program
+// (comments between every pair of tokens): single- and multi-line, content
+// ending in a newline, nested, doc comments, line comments.
+var commentInserts = [][]byte{
+	[]byte("/*c*/"), []byte("/* a\n*/"), []byte("/** d\n*/"), []byte("/*\n*/"), []byte("/* a\nb */"),
+	[]byte("/* a /* b\n*/ c */"), []byte("/* a /* b */\n*/"), []byte("//c\n"), []byte("///d\n"), []byte("\n/* a\n*/\n"),
+}
 
 func editCorpus(thorough bool) []string {
 	var out []string
@@ -1084,7 +1094,7 @@ func runC37(env *mc.Env) {
 
 	// (a3) all sequences of <= 3 tokens over a non-ASCII token alphabet (column bookkeeping)
 	if part("tokens") {
-		mb := []string{"\"é\"", "/*é*/", "/*éa*/", "//é\n", "x", " ", "\"\\(a)é\"", "\"日本\"", "\n", "/*\U0001F600*/"}
+		mb := []string{"/* a\n*/", "/**é\n*/", "/* a /* b\n*/ c */", "\"é\"", "/*é*/", "/*éa*/", "//é\n", "x", " ", "\"\\(a)é\"", "\"日本\"", "\n", "/*\U0001F600*/"}
 		classes := map[string]int64{}
 		var dc int64
 		run := func(seq string) {
@@ -1146,6 +1156,14 @@ func runC37(env *mc.Env) {
 				for _, a := range alphaB {
 					run(splice(sp[0], sp[1], a), "replace-token")
 				}
+			}
+			for _, sp := range spans {
+				for _, ins := range commentInserts {
+					run(splice(sp[0], sp[0], ins), "insert-comment")
+				}
+			}
+			for _, ins := range commentInserts {
+				run(splice(len(src), len(src), ins), "insert-comment")
 			}
 			for i := 0; i <= len(src); i++ {
 				run(src[:i], "truncate")
@@ -1328,7 +1346,7 @@ func replayC37(env *mc.Env, raw json.RawMessage) (bool, string) {
 func init() {
 	mc.Register(&mc.Check{
 		ID:   "C37",
-		Rule: "lexer.Lex + parser.ParseProgram (+ sema Checker.Check when the parse succeeds) on (a) every byte string of length <= 2 and every sequence of <= 3 tokens [<= 4 over the 62 non-keyword tokens, thorough] over the full token alphabet (every lexer token type, every keyword, literal / comment / string-template fragments), space-separated and adjacent; (b) every single edit (delete / duplicate / replace-by-each-alphabet-token at every token, truncate at every byte, insert each of {80, C0, FF, ED A0 80, NUL, \\(, /*, \"} at every byte) of every program of the edit corpus; (c) nesting ladders n = 1,2,4..2^14 [2^18] for ~95 nesting / repetition constructs (checker only up to 2^11: it is quadratic in nesting depth), run in worker subprocesses so that an unrecoverable crash is attributed to its input; (d) all ordered pairs of 36 inputs lexed back-to-back through the pooled lexer (previous stream consumed fully / 0 / 1 / 2 tokens) vs lexed fresh, and parsed back-to-back vs parsed first. Oracle: no panic, only user errors; every token and error position inside the input; tokens contiguous from 0 to len (up to the first error token); token line = 1 + newlines before the offset and column = distance from line start in one convention (bytes or runes) per input; history-independence. non-trivial = input that reached the checker / ladder rungs with n >= 32 / pool pairs where the pooled lexer object was observably reused",
+		Rule: "lexer.Lex + parser.ParseProgram (+ sema Checker.Check when the parse succeeds) on (a) every byte string of length <= 2 and every sequence of <= 3 tokens [<= 4 over the 62 non-keyword tokens, thorough] over the full token alphabet (every lexer token type, every keyword, literal / comment / string-template fragments), space-separated and adjacent; (b) every single edit (delete / duplicate / replace-by-each-alphabet-token at every token, truncate at every byte, insert each of {80, C0, FF, ED A0 80, NUL, \\(, /*, \"} at every byte, insert each of 10 single-/multi-line/nested/doc comments at every token gap) of every program of the edit corpus; (c) nesting ladders n = 1,2,4..2^14 [2^18] for ~95 nesting / repetition constructs (checker only up to 2^11: it is quadratic in nesting depth), run in worker subprocesses so that an unrecoverable crash is attributed to its input; (d) all ordered pairs of 36 inputs lexed back-to-back through the pooled lexer (previous stream consumed fully / 0 / 1 / 2 tokens) vs lexed fresh, and parsed back-to-back vs parsed first. Oracle: no panic, only user errors; every token and error position inside the input; tokens contiguous from 0 to len (up to the first error token); token line = 1 + newlines before the offset and column = distance from line start in one convention (bytes or runes) per input; history-independence. non-trivial = input that reached the checker / ladder rungs with n >= 32 / pool pairs where the pooled lexer object was observably reused",
 		Assumptions: []string{
 			"checker run without a standard library (base activations only), access check mode 'not specified unrestricted', native/static declarations allowed",
 			"error positions are read through StartPosition/EndPosition of each reported error",
